@@ -114,6 +114,10 @@ def run_scene(key):
         sel = owner == k
         images[k][:, sel, :] = steer[:, k, None, :] * s[:, sel, None]
     noise = A.cnormal(r, (F, T, D)) * 10 ** (key.get('noise_db', -40) / 20)
+    variant = key.get('variant', 'plain')
+    if variant == 'fit_predict_small':
+        # the whole scene 40 dB lower (nothing in the chain depends on the absolute level)
+        images, noise = images * 1e-2, noise * 1e-2
     X = images.sum(0) + noise                                   # (F, T, D)
     # per-frequency permuted, blurred partition as start
     part = np.full((K, T), 0.4 / (K - 1))
@@ -131,8 +135,11 @@ def run_scene(key):
     init = np.stack([part[list(field[f])] for f in range(F)])     # (F, K, T)
     trainer = d.CACGMMTrainer() if model == 'cacgmm' else d.CWMMTrainer()
     try:
-        m = trainer.fit(X, initialization=init, iterations=10)
-        aff = m.predict(X)                                       # (F, K, T)
+        if variant == 'fit_predict_small':
+            aff = trainer.fit_predict(X, initialization=init, iterations=10)   # the other documented entry point
+        else:
+            m = trainer.fit(X, initialization=init, iterations=10)
+            aff = m.predict(X)                                   # (F, K, T)
         aff_kft = np.transpose(aff, (1, 0, 2))
         mapping = aligner.calculate_mapping(aff_kft)
         aff_pa = aligner.apply_mapping(aff_kft, mapping)        # (K, F, T)
@@ -164,8 +171,15 @@ def run_scene(key):
         for k in range(K):
             target = psd[:, k]
             interf = psd[:, [j for j in range(K) if j != k]].sum(1)
+            kw = {}
+            if variant == 'eig' and 'gev' in name:
+                # the general (non-Hermitian) eigen-solver option of the GEV-based beamformers
+                if name.startswith(('rank1_gev', 'scaled_gev_atf')):
+                    kw['atf_kwargs'] = dict(use_eig=True)
+                if name.split('+')[0] == 'gev' or '+gev' in name:
+                    kw['use_eig'] = True
             try:
-                W.append(np.asarray(bw.get_bf_vector(name, target, interf)))
+                W.append(np.asarray(bw.get_bf_vector(name, target, interf, **kw)))
             except Exception as e:  # noqa
                 return viol(f'get_bf_vector({name!r}) raised {e!r}')
         contrib = np.zeros((K, K, F * T), complex)
@@ -200,10 +214,13 @@ def subchecks(tier, seed):
                                 if not thorough and F == 257 and (pk == 'blocks' or family == 'identity'
                                                                  or (D == K + 2 and model == 'cwmm')):
                                     continue
-                                yield (K, D, F, T, model, pk, family, -40, seed)
+                                yield (K, D, F, T, model, pk, family, -40, 'plain', seed)
+                                if F == 33 and family == 'random' and (thorough or pk == 'random'):
+                                    yield (K, D, F, T, model, pk, family, -40, 'eig', seed)
+                                    yield (K, D, F, T, model, pk, family, -40, 'fit_predict_small', seed)
                                 if F == 33 and family == 'random' and (thorough or pk == 'random'):
                                     # much quieter sensor noise ("at least 40 dB below the sources")
                                     for db in (-80, -120):
-                                        yield (K, D, F, T, model, pk, family, db, seed)
-    return [Sub('scenes', ('K', 'D', 'F', 'T', 'model', 'part', 'field', 'noise_db', 'seed'), cases, run_scene,
+                                        yield (K, D, F, T, model, pk, family, db, 'plain', seed)
+    return [Sub('scenes', ('K', 'D', 'F', 'T', 'model', 'part', 'field', 'noise_db', 'variant', 'seed'), cases, run_scene,
                 bound=dict(beamformers=list(BEAMFORMERS)), exhaustive=thorough, min_nontrivial=50)]
